@@ -147,7 +147,20 @@ def rstring(rng, fancy=True):
     n = rng.randint(1, 10)
     alphabet = SAFE + (" _-.:/%é𝄞,;=" if fancy else "")
     s = "".join(rng.choice(alphabet) for _ in range(n)).strip()
-    return s or "x"
+    # free strings start with a letter or digit: a string that starts like an expression, binding, list or regular
+    # expression ("(", "[", "{", "/") is the documented exclusion at expression-capable keywords
+    s = rng.choice(SAFE) + s
+    if fancy:
+        c = rng.random()
+        if c < .06:
+            s = " " + s                      # leading blank
+        elif c < .12:
+            s = s + rng.choice([" ", "  "])  # trailing blank(s)
+        elif c < .16:
+            s = "'" + s + "'"                # content wrapped in the other quote character
+        elif c < .18:
+            s = s + "'"
+    return s
 
 
 EXPRS = [
@@ -219,9 +232,11 @@ def value_for(rng, shape, key):
     if k == "strlist":
         lo, hi = shape[1], shape[2]
         if lo == 2 and hi == 2:
-            if rng.random() < .5:
+            if key in ("offset", "polaroffset"):
+                return ["[a]", "[b]"], [("[a]", "raw"), ("[b]", "raw")], "bindpair"
+            if key == "colorrange":
                 return ["#ff0000", "#00ff00"], [("#ff0000", "qstr"), ("#00FF00", "qstr")], "hexpair"
-            return ["[a]", "[b]"], [("[a]", "raw"), ("[b]", "raw")], "bindpair"
+            return None
         return None
     return None
 
@@ -432,3 +447,104 @@ def plain_dict(x):
     if isinstance(x, tuple):
         return tuple(plain_dict(v) for v in x)
     return x
+
+
+# ---------------------------------------------------------------------------------------------
+# independent expectation of the printed text: the lines (indentation stripped) an IR block must print as,
+# each value in the lexical class MapServer requires.  Written from the property text, not from pprint.py.
+# ---------------------------------------------------------------------------------------------
+def q_(s, q):
+    return q + s + q
+
+
+def value_text(val, tag, q):
+    if tag in ("string", "enum-quoted", "hexcolor"):
+        return q_(val, q)
+    if tag in ("enum", "binding", "expression", "regex"):
+        return val
+    if tag in ("int", "float"):
+        return repr(val)
+    if tag == "bool":
+        return "TRUE" if val else "FALSE"
+    if tag.startswith("numlist"):
+        return " ".join(repr(v) for v in val)
+    if tag == "hexpair":
+        return " ".join(q_(v, q) for v in val)
+    if tag == "bindpair":
+        return " ".join(val)
+    raise ValueError(tag)
+
+
+def expected_lines(b: Block, q='"', end_comment=False):
+    """[(depth, text)] for the block, grouped the way the dictionary groups repeated blocks/keywords"""
+    slots = OrderedDict()   # key -> ("attr", text) | ("blocks", [Block]) | ("block", Block) | ("kv", pairs) | ("rep", [str]) | ...
+    for it in b.items:
+        kind = it[0]
+        if kind == "attr":
+            # COMPOP takes a string in MapServer although the schema enumerates its values
+            tag = "string" if it[1] == "compop" and it[4] == "enum" else it[4]
+            slots[it[1]] = ("attr", value_text(it[2], tag, q))
+        elif kind == "block":
+            _, k, child, is_list = it
+            if is_list:
+                if k in slots and slots[k][0] == "blocks":
+                    slots[k][1].append(child)
+                else:
+                    slots[k] = ("blocks", [child])
+            else:
+                slots[k] = ("block", child)
+        elif kind == "kv":
+            pairs = OrderedDict()
+            for kk, vv in it[2]:
+                pairs[kk.lower()] = vv
+            slots[it[1]] = ("kv", list(pairs.items()))
+        elif kind == "repeated":
+            if it[1] in slots:
+                slots[it[1]][1].append(it[2])
+            else:
+                slots[it[1]] = ("rep", [it[2]])
+        elif kind == "config":
+            if "config" not in slots:
+                slots["config"] = ("config", OrderedDict())
+            slots["config"][1][it[1].lower()] = it[2]
+        elif kind == "projection":
+            slots["projection"] = ("projection", it[1])
+        elif kind == "points":
+            if it[1] in slots:
+                slots[it[1]][1].append(it[2])
+            else:
+                slots[it[1]] = ("points", [it[2]])
+    def end(name):
+        return "END" + (f" # {name.upper()}" if end_comment else "")
+    out = [(0, b.type.upper())]
+    for k, (kind, x) in slots.items():
+        K = k.upper()
+        if kind == "attr":
+            out.append((1, f"{K} {x}"))
+        elif kind == "blocks":
+            for child in x:
+                out += [(d + 1, t) for d, t in expected_lines(child, q, end_comment)]
+        elif kind == "block":
+            out += [(d + 1, t) for d, t in expected_lines(x, q, end_comment)]
+        elif kind == "kv":
+            out.append((1, K))
+            out += [(2, f"{q_(kk, q)} {q_(vv, q)}") for kk, vv in x]
+            out.append((1, end(k)))
+        elif kind == "rep":
+            out += [(1, f"{K} {q_(s, q)}") for s in x]
+        elif kind == "config":
+            out += [(1, f"CONFIG {q_(kk.upper(), q)} {q_(vv, q)}") for kk, vv in x.items()]
+        elif kind == "projection":
+            out.append((1, K))
+            if x == "AUTO":
+                out.append((2, "AUTO"))
+            else:
+                out += [(2, q_(s, q)) for s in x]
+            out.append((1, end(k)))
+        elif kind == "points":
+            for pts in x:
+                out.append((1, K))
+                out += [(2, f"{repr(a)} {repr(c)}") for a, c in pts]
+                out.append((1, end(k)))
+    out.append((0, end(b.type)))
+    return out
